@@ -1,0 +1,31 @@
+// Copyright Amazon.com, Inc. or its affiliates. All Rights Reserved.
+// SPDX-License-Identifier: Apache-2.0
+
+//!
+//! Event log for external runtime monitors (feature `verif-hooks`, off by default).
+//!
+//! Records every pair `(r, x)` for which the union constructor dropped operand `r`
+//! because it found `r` included in `x`.
+//!
+
+use crate::regular_expressions::RegLan;
+use std::cell::RefCell;
+
+thread_local!(static SUBSUMPTIONS: RefCell<Vec<(RegLan, RegLan)>> = const { RefCell::new(Vec::new()) });
+
+// keep the log bounded if nobody drains it
+const MAX_LOG: usize = 1 << 20;
+
+pub(crate) fn log_subsumption(r: RegLan, x: RegLan) {
+    SUBSUMPTIONS.with(|l| {
+        let mut l = l.borrow_mut();
+        if l.len() < MAX_LOG {
+            l.push((r, x));
+        }
+    })
+}
+
+/// Drain the log of subsumption decisions taken on this thread
+pub fn take_subsumptions() -> Vec<(RegLan, RegLan)> {
+    SUBSUMPTIONS.with(|l| std::mem::take(&mut *l.borrow_mut()))
+}
